@@ -150,6 +150,9 @@ impl<L: Language, N: Analysis<L>> EGraph<L, N> {
         let psn = self.classes[&i].nodes[&sh].clone();
         let node = sh.apply_slotmap(&psn.elem);
         self.raw_remove_from_class(i, sh.clone());
+        // If `sh` refers to its own class, the analysis update above may just have re-queued it; the shape is gone
+        // now (its canonical successor is analysed below), so it must not stay in the work list.
+        self.pending.remove(&sh);
         let app_i = self.mk_sem_identity_applied_id(i);
 
         let enode = &node;
@@ -188,6 +191,11 @@ impl<L: Language, N: Analysis<L>> EGraph<L, N> {
         let bij = bij.compose_partial(&m);
         let t = (sh, bij);
         self.raw_add_to_class(i.id, t.clone(), src_id);
+
+        // The analysis update at the top ran on the stale shape, which may still be registered as a usage of a dead
+        // class: if it grew the datum of `i` and the e-node refers to `i` itself, the e-node was not re-queued.
+        // Now that it is registered under its live children, bring its contribution up to date.
+        self.update_analysis(&t.0, i.id);
 
         self.determine_self_symmetries(src_id);
     }
